@@ -23,7 +23,7 @@ GInit == \E c \in Cfgs, k \in StartKernels :
             /\ cfg = c /\ kernel = k
             /\ desired = [chains |-> [x \in {} |-> <<>>], ins |-> [x \in KCh |-> <<>>], app |-> [x \in KCh |-> <<>>]]
             /\ belief = [stale |-> TRUE, due |-> TRUE]
-            /\ phase = [inApply |-> FALSE, readFailed |-> FALSE, envFail |-> FALSE]
+            /\ phase = [inApply |-> FALSE, readFailed |-> FALSE, envFail |-> FALSE, notified |-> FALSE, consistent |-> TRUE]
             /\ known = {}
             /\ hist = <<[op |-> "start", mode |-> c.mode, owns |-> c.ownsAll, kernel |-> k]>>
 
